@@ -25,8 +25,24 @@ Binding: Sweep steps (one range, EVERY claim shape, each verified with the proof
 GetRangeProof of a hashed trie, of a never hashed trie, of the database-loaded trie, and re-decoded from their
 encoding) and RTamper steps (one proof node dropped / altered under its old key / its new hash) on the real
 verifiers; verdict = the contract's, and for trie2 additionally the transcription's.
+Proof SETS shared between the keys of one request (Proof.tla "shared proof sets", spec/trie/ProofSet.tla): no caller
+hands the result of one Prove call to a verifier - rpc/v{8,9,10}/storage.go and GetRangeProof fill ONE set (hash ->
+node) per trie with one Prove call per requested key, in request order. TLC, exhaustive over every key/value set with
+<= 4 keys at H = 3 over a value alphabet that is NOT tied to the keys (equal sub-tries at different positions exist:
+000 001 110 111 -> a b a b) x every request of distinct keys (present and absent) in every order x both
+implementations: every key verifies against the accumulated set (SharedSetComplete) and the set is exactly the union of
+the single-key proofs (SharedSetIsUnion); "Prove skips a node whose child hash the set already holds", "the walk stops
+at the first node the set already holds" and "an edge is filed under its child's hash" are expected violations.
+Binding: ProofMBT.tla Graft / Multi behaviours (sub-tries copied to other prefixes, requests of 2..4 keys) and directed
+families lifted from TLC's counterexample, on the legacy trie (Pedersen and Poseidon), the in-memory and the
+database-loaded trie2, at height 251 and at small heights (5, the model's height, a few bits more): one set filled as
+the handlers fill it, in EVERY order of the request; every key must be established by the real VerifyProof (height 251)
+and by refimpl.Verify, and the set must be the union of the real single-key proofs. RPC: state whose storage, classes
+and contracts tries all hold such equal sub-tries, requests in every order through the real starknet_getStorageProof
+(v8 / v9 / v10, both backends), every key established on the wire format by refimpl.Verify and by trie.VerifyProof.
 """
 import json
+import threading
 import vlib
 from trie_common import Guards, safe_engine, safe_sim, known_status, finish
 
@@ -69,6 +85,90 @@ def run(ctx):
     simcfg = with_switches("Proof_sim.cfg")
     sweepcfg = with_switches("Proof_sweep.cfg")
 
+    # ---- TLC on the specification: independent of the tree under test, so it runs in a thread of its own next to the
+    # simulations / engine runs below (two JVMs at most); a failure lands in the guards and can never mask a divergence
+    def tlc_part():
+        try:
+            # (i) the repaired design: completeness and soundness against the whole alphabet
+            ctx.tlc_check("trie", "Proof.tla", "Proof_thorough.cfg" if thorough else "Proof_quick.cfg", timeout=3000,
+                          label="Proof.tla/repaired")
+            # (ii) the code as it is: sound against wire-level tampering, complete on non-empty tries
+            ctx.tlc_check("trie", "Proof.tla", "Proof_faithful.cfg", timeout=3000, label="Proof.tla/faithful")
+            # (ii') proof sets shared between the keys of one request: every key/value set over a value alphabet that is not
+            # tied to the keys x every request of distinct keys in every order; the code as it is (Prove never reads the set)
+            ctx.tlc_check("trie", "ProofSet.tla", "ProofSet_thorough.cfg" if thorough else "ProofSet_quick.cfg", timeout=3000,
+                          label="ProofSet.tla/shared-sets")
+            if thorough:
+                ctx.tlc_check("trie", "ProofSet.tla", "ProofSet_deep.cfg", timeout=3000, label="ProofSet.tla/shared-sets-H4")
+                # vacuity: tries with equal sub-tries below different edges are part of the state space (expected violation of
+                # "there are none"); the two formulations of the accumulated set agree
+                with open(vlib.VERIF + "/spec/trie/ProofSet_quick.cfg") as f:
+                    qbase = f.read()
+                r = ctx.tlc_check("trie", "ProofSet.tla", "twins.cfg", expect_violation=True, timeout=900, label="ProofSet.tla equal sub-tries exist",
+                                  files={"twins.cfg": qbase.replace("INVARIANTS SharedSetComplete SharedSetIsUnion", "INVARIANTS NoTwins")})
+                if r["violated"] is None:
+                    raise vlib.Broken("ProofSet.tla: no key/value set with two equal sub-tries below different edges")
+                ctx.tlc_check("trie", "ProofSet.tla", "acc.cfg", timeout=900, label="ProofSet.tla Accumulate = SharedSet",
+                              files={"acc.cfg": qbase.replace("INVARIANTS SharedSetComplete SharedSetIsUnion", "INVARIANTS AccumulateIsSharedSet").replace("MaxV = 2", "MaxV = 1")})
+            # ... and the designs that take the hash of a node for its position must be refuted (expected violations)
+            for cfgname, mut in (("ProofSet_x_skip.cfg", "skip-known-child"), ("ProofSet_x_stop.cfg", "stop-at-known")) + (
+                    (("ProofSet_x_key.cfg", "key-by-child"),) if thorough else ()):
+                r = ctx.tlc_check("trie", "ProofSet.tla", cfgname, expect_violation=True, label="ProofSet.tla mutant '%s'" % mut, timeout=900)
+                if r["violated"] is None:
+                    raise vlib.Broken("ProofSet.tla: the mutant '%s' violates nothing" % mut)
+                if thorough and mut != "key-by-child":
+                    # ... while the single-key property cannot see them (a single call starts from the empty set)
+                    with open(vlib.VERIF + "/spec/trie/" + cfgname) as f:
+                        single = f.read().replace("INVARIANTS SharedSetComplete", "INVARIANTS SingleKeyComplete")
+                    ctx.tlc_check("trie", "ProofSet.tla", "single.cfg", files={"single.cfg": single},
+                                  label="ProofSet.tla mutant '%s' / single-key completeness holds" % mut, timeout=900)
+            if thorough:
+                # spec self-test: each switch alone must break a property
+                with open(vlib.VERIF + "/spec/trie/Proof_quick.cfg") as f:
+                    base = f.read()
+                for name in ("EmptyTrieVerifies", "CheckValueDepth"):
+                    r = ctx.tlc_check("trie", "Proof.tla", "sw.cfg", files={"sw.cfg": base.replace(name + " = TRUE", name + " = FALSE")},
+                                      expect_violation=True, label="Proof.tla %s=FALSE" % name, timeout=600)
+                    if r["violated"] is None:
+                        raise vlib.Broken("switch %s does not matter in Proof.tla" % name)
+            # (iii) range proofs: trie2's VerifyRangeProof transcribed with its cached-hash mechanism (RangeProof.tla) -
+            # the verifier as it is against the contract with the known deviations left open, and the repaired design
+            # against the full contract, every claim shape x both provenances of the proof nodes; tampered proof nodes
+            ctx.tlc_check("trie", "RangeProof.tla", "Range_thorough.cfg" if thorough else "Range_quick.cfg", timeout=3000,
+                          label="RangeProof.tla/as-it-is")
+            ctx.tlc_check("trie", "RangeProof.tla", "Range_repaired_thorough.cfg" if thorough else "Range_repaired_quick.cfg", timeout=3000,
+                          label="RangeProof.tla/repaired")
+            ctx.tlc_check("trie", "RangeProof.tla", "Range_tamper_thorough.cfg" if thorough else "Range_tamper_quick.cfg", timeout=3000,
+                          label="RangeProof.tla/repaired-tampered")
+            # the mechanism can fail: a verifier that does not mark EVERY node it visits while cutting the range dirty
+            # trusts a cached hash of a node whose subtree it has cut (expected violations)
+            with open(vlib.VERIF + "/spec/trie/Range_quick.cfg") as f:
+                rbase = f.read()
+            full = 'DirtyOnUnset = {"above", "fork", "below"}'
+            for drop in (("above", "fork", "below") if thorough else ("above",)):
+                rest = ", ".join('"%s"' % x for x in ("above", "fork", "below") if x != drop)
+                r = ctx.tlc_check("trie", "RangeProof.tla", "dirty.cfg", files={"dirty.cfg": rbase.replace(full, "DirtyOnUnset = {%s}" % rest)},
+                                  expect_violation=True, label="RangeProof.tla unset does not dirty '%s'" % drop, timeout=900)
+                if r["violated"] is None:
+                    raise vlib.Broken("RangeProof.tla: not marking the nodes '%s' the fork dirty violates nothing" % drop)
+            if thorough:
+                ctx.tlc_check("trie", "RangeProof.tla", "Range_tamper_faithful.cfg", timeout=3000, label="RangeProof.tla/as-it-is-tampered(drop,rekey)")
+                with open(vlib.VERIF + "/spec/trie/Range_tamper_quick.cfg") as f:
+                    tbase = f.read()
+                sbase = rbase.replace(" = FALSE", " = TRUE").replace("INVARIANTS RangeContract", "INVARIANTS RangeContractStrict")
+                for name, cfgtext in (("RehashResolved", tbase), ("UnsetBoundaryLeaves", sbase), ("CopyOnResolve", sbase), ("EmptyTrieVerifies", sbase)):
+                    r = ctx.tlc_check("trie", "RangeProof.tla", "sw.cfg", files={"sw.cfg": cfgtext.replace(name + " = TRUE", name + " = FALSE")},
+                                      expect_violation=True, label="RangeProof.tla %s=FALSE" % name, timeout=900)
+                    if r["violated"] is None:
+                        raise vlib.Broken("switch %s does not matter in RangeProof.tla" % name)
+        except vlib.Broken as e:
+            guards.failed.append(str(e)[:1500])
+        except Exception as e:   # noqa: a broken thread must surface as broken machinery, not vanish
+            guards.failed.append("TLC part: %r" % (e,))
+
+    tlc_thread = threading.Thread(target=tlc_part, name="tlc-spec")
+    tlc_thread.start()
+
     nruns = 10 if thorough else 2
     per_run = 40 if thorough else 20
     behaviours = []
@@ -97,6 +197,22 @@ def run(ctx):
         ctx.coverage["queries_replayed"] = res.get("steps", 0)
         guards.require(res.get("steps", 0) >= 100 or ctx.violations, "proof replay executed only %s queries" % res.get("steps"))
 
+    # ---- proof sets shared between the keys of one request: TLC behaviours with grafted sub-tries (ProofMBT.tla Graft /
+    # Multi steps) + directed families, every order of every request, legacy / trie2 (memory, database), height 251 and small
+    shared = []
+    sharedcfg = with_switches("Proof_shared.cfg")
+    for i in range(4 if thorough else 1):
+        shared += safe_sim(ctx, guards, "trie", "ProofMBT.tla", "shared.cfg", depth=25 * (40 if thorough else 20),
+                           seed=ctx.seed * 1000 + 500 + i, timeout=900, files={"shared.cfg": sharedcfg})
+    res = safe_engine(ctx, binary, "TestSharedProofSets", {"h": 4, "maxv": 3, "behaviours": shared, "directed": True}, "trie", guards)
+    st = res.get("stats", {})
+    ctx.coverage["behaviours_shared_sets"] = len(shared)
+    guards.require(st.get("shared_cases", 0) >= 300 or ctx.violations, "only %s shared-proof-set cases were run" % st.get("shared_cases"))
+    guards.require(st.get("shared_tlc-requests-on-tries-with-equal-subtries", 0) >= 10 or ctx.violations or not shared,
+                   "only %s TLC-generated requests hit a trie with equal sub-tries below different edges" % st.get("shared_tlc-requests-on-tries-with-equal-subtries"))
+    guards.require((st.get("shared_cases-height-251-pedersen", 0) >= 50 and st.get("shared_cases-height-251-poseidon", 0) >= 50) or ctx.violations,
+                   "shared proof sets at height 251: %s Pedersen / %s Poseidon cases" % (st.get("shared_cases-height-251-pedersen"), st.get("shared_cases-height-251-poseidon")))
+
     # ---- RPC: starknet_getStorageProof on the wire, independent verifier (engine trierpc, FFI stubs)
     try:
         rpcbin = ctx.build_engine("trierpc", stubs=True)
@@ -121,58 +237,20 @@ def run(ctx):
             ctx.coverage["rpc_chains"] = res.get("replayed", 0)
             ctx.coverage["rpc_proof_checks"] = res.get("steps", 0)
             guards.require(res.get("replayed", 0) >= 10 or ctx.violations, "RPC storage-proof engine served only %s requests" % res.get("replayed"))
+        # shared proof sets through the real handlers: storage, classes and contracts tries with equal sub-tries at
+        # different positions (TLC's Multi steps + directed record layouts), requests in every order
+        res = safe_engine(ctx, rpcbin, "TestStorageProofSharedSets", {"behaviours": shared, "directed": True, "maxCases": 80 if thorough else 20},
+                          "trierpc", guards, env_extra={"CGO_LDFLAGS": "-L" + vlib.BUILD + "/lib"})
+        ctx.coverage["rpc_shared_set_requests"] = res.get("steps", 0)
+        guards.require(res.get("steps", 0) >= 40 or ctx.violations, "only %s starknet_getStorageProof requests on state with equal sub-tries" % res.get("steps"))
 
-    # ---- TLC on the specification (independent of the tree under test; last, so that it can never mask a divergence)
-    try:
-        # (i) the repaired design: completeness and soundness against the whole alphabet
-        ctx.tlc_check("trie", "Proof.tla", "Proof_thorough.cfg" if thorough else "Proof_quick.cfg", timeout=3000,
-                      label="Proof.tla/repaired")
-        # (ii) the code as it is: sound against wire-level tampering, complete on non-empty tries
-        ctx.tlc_check("trie", "Proof.tla", "Proof_faithful.cfg", timeout=3000, label="Proof.tla/faithful")
-        if thorough:
-            # spec self-test: each switch alone must break a property
-            with open(vlib.VERIF + "/spec/trie/Proof_quick.cfg") as f:
-                base = f.read()
-            for name in ("EmptyTrieVerifies", "CheckValueDepth"):
-                r = ctx.tlc_check("trie", "Proof.tla", "sw.cfg", files={"sw.cfg": base.replace(name + " = TRUE", name + " = FALSE")},
-                                  expect_violation=True, label="Proof.tla %s=FALSE" % name, timeout=600)
-                if r["violated"] is None:
-                    raise vlib.Broken("switch %s does not matter in Proof.tla" % name)
-        # (iii) range proofs: trie2's VerifyRangeProof transcribed with its cached-hash mechanism (RangeProof.tla) -
-        # the verifier as it is against the contract with the known deviations left open, and the repaired design
-        # against the full contract, every claim shape x both provenances of the proof nodes; tampered proof nodes
-        ctx.tlc_check("trie", "RangeProof.tla", "Range_thorough.cfg" if thorough else "Range_quick.cfg", timeout=3000,
-                      label="RangeProof.tla/as-it-is")
-        ctx.tlc_check("trie", "RangeProof.tla", "Range_repaired_thorough.cfg" if thorough else "Range_repaired_quick.cfg", timeout=3000,
-                      label="RangeProof.tla/repaired")
-        ctx.tlc_check("trie", "RangeProof.tla", "Range_tamper_thorough.cfg" if thorough else "Range_tamper_quick.cfg", timeout=3000,
-                      label="RangeProof.tla/repaired-tampered")
-        # the mechanism can fail: a verifier that does not mark EVERY node it visits while cutting the range dirty
-        # trusts a cached hash of a node whose subtree it has cut (expected violations)
-        with open(vlib.VERIF + "/spec/trie/Range_quick.cfg") as f:
-            rbase = f.read()
-        full = 'DirtyOnUnset = {"above", "fork", "below"}'
-        for drop in (("above", "fork", "below") if thorough else ("above",)):
-            rest = ", ".join('"%s"' % x for x in ("above", "fork", "below") if x != drop)
-            r = ctx.tlc_check("trie", "RangeProof.tla", "dirty.cfg", files={"dirty.cfg": rbase.replace(full, "DirtyOnUnset = {%s}" % rest)},
-                              expect_violation=True, label="RangeProof.tla unset does not dirty '%s'" % drop, timeout=900)
-            if r["violated"] is None:
-                raise vlib.Broken("RangeProof.tla: not marking the nodes '%s' the fork dirty violates nothing" % drop)
-        if thorough:
-            ctx.tlc_check("trie", "RangeProof.tla", "Range_tamper_faithful.cfg", timeout=3000, label="RangeProof.tla/as-it-is-tampered(drop,rekey)")
-            with open(vlib.VERIF + "/spec/trie/Range_tamper_quick.cfg") as f:
-                tbase = f.read()
-            sbase = rbase.replace(" = FALSE", " = TRUE").replace("INVARIANTS RangeContract", "INVARIANTS RangeContractStrict")
-            for name, cfgtext in (("RehashResolved", tbase), ("UnsetBoundaryLeaves", sbase), ("CopyOnResolve", sbase), ("EmptyTrieVerifies", sbase)):
-                r = ctx.tlc_check("trie", "RangeProof.tla", "sw.cfg", files={"sw.cfg": cfgtext.replace(name + " = TRUE", name + " = FALSE")},
-                                  expect_violation=True, label="RangeProof.tla %s=FALSE" % name, timeout=900)
-                if r["violated"] is None:
-                    raise vlib.Broken("switch %s does not matter in RangeProof.tla" % name)
-    except vlib.Broken as e:
-        guards.failed.append(str(e)[:1500])
+    tlc_thread.join()
 
     ctx.assumptions += [
         "hashes are injective terms in Proof.tla (unforgeable up to collisions); core/crypto is trusted",
+        "ProofSet.tla: renaming the values is a symmetry of the model (hash terms are uninterpreted), one of each pair of "
+        "value-renamed key/value sets is checked; at heights other than 251 only the independent verifier applies (both real "
+        "VerifyProof hard-code 251)",
         "range proofs: core/trie's verifier is specified by its contract only; core/trie2's is also transcribed (RangeProof.tla)",
         "a proof node altered in place with its cached nodeFlag.Hash kept is not a proof tampering (DESIGN 13.3); HONEST nodes "
         "that carry a cache (taken directly from Prove / GetRangeProof of a hashed or database-loaded trie) are part of the domain",
@@ -194,4 +272,12 @@ def run(ctx):
         "range-proof node (drop, alter under the old key / the new hash) in the single-element, empty and general cases; RPC: starknet_getStorageProof through the real "
         "jsonrpc.Server (v8/v9/v10 method tables, both state backends) on chains built from StateMBT.tla behaviours, every "
         "class / contract / storage slot (present and absent) verified on the wire format by refimpl.Verify against the "
-        "header's state root")
+        "header's state root; shared proof sets: TLC exhaustive over every key/value set (<= 4 keys, H=3, values {1,2} not tied to "
+        "keys) x every request of 1..2 (thorough 3) distinct keys in every order x both implementations, three hash-for-position "
+        "mutants refuted; binding: requests of 2..4 keys from TLC behaviours with grafted sub-tries and from directed families "
+        "(one sub-trie at two or three prefixes x shapes x bystanders), one set filled as the RPC handlers fill it in EVERY order, "
+        "legacy (Pedersen / Poseidon) and trie2 (memory, database) at height 251 and small heights, every key established by the "
+        "real and the independent verifier and the set compared with the union of the single-key proofs; the same key/value sets "
+        "as contract storage, classes and contracts of a chain, asked through the real starknet_getStorageProof in every order; "
+        "non-trivial = the request has >= 2 keys on a non-empty trie (guard: >= 10 TLC requests on tries with equal sub-tries "
+        "below different edges)")
